@@ -20,6 +20,8 @@ pub enum NodeKind {
     Link(String),
     /// Symlink to nothing.
     Dangling,
+    /// A unix-domain socket (bound, nobody listening): an entry that is neither file nor directory.
+    Socket,
     /// Symlink to a directory on another file system holding two files.
     XdevLink,
 }
@@ -66,11 +68,15 @@ pub struct WalkCfg {
     /// skip_stdout(true) while standard output is this file of the tree: entries that are that
     /// file (by any name, also through a followed link) are not reported, roots excepted.
     pub skip_stdout: Option<String>,
+    /// How directory roots are spelled for the builder: 0 as they are, 1 "./" in front of the
+    /// last component, 2 a trailing slash, 3 "<dir>/../<dir>". Reported paths are compared after
+    /// lexical normalisation, so the spelling must not change what is reported.
+    pub root_spelling: u8,
 }
 
 impl Default for WalkCfg {
     fn default() -> WalkCfg {
-        WalkCfg { threads: 2, max_depth: None, max_filesize: None, follow_links: false, same_file_system: false, filter_char: None, ignore_files: false, hidden: false, override_glob: None, type_x: false, sort_names: false, custom_ignore: false, parents: false, skip_stdout: None }
+        WalkCfg { threads: 2, max_depth: None, max_filesize: None, follow_links: false, same_file_system: false, filter_char: None, ignore_files: false, hidden: false, override_glob: None, type_x: false, sort_names: false, custom_ignore: false, parents: false, skip_stdout: None, root_spelling: 0 }
     }
 }
 
@@ -80,7 +86,7 @@ impl WalkCfg {
             "threads": self.threads, "max_depth": self.max_depth, "max_filesize": self.max_filesize,
             "follow_links": self.follow_links, "same_file_system": self.same_file_system,
             "filter_char": self.filter_char.map(|c| c.to_string()), "ignore_files": self.ignore_files, "hidden": self.hidden,
-            "override_glob": self.override_glob, "type_x": self.type_x, "sort_names": self.sort_names, "custom_ignore": self.custom_ignore, "parents": self.parents, "skip_stdout": self.skip_stdout,
+            "override_glob": self.override_glob, "type_x": self.type_x, "sort_names": self.sort_names, "custom_ignore": self.custom_ignore, "parents": self.parents, "skip_stdout": self.skip_stdout, "root_spelling": self.root_spelling,
         })
     }
     pub fn from_json(v: &Value) -> WalkCfg {
@@ -99,6 +105,7 @@ impl WalkCfg {
             custom_ignore: v["custom_ignore"].as_bool().unwrap_or(false),
             parents: v["parents"].as_bool().unwrap_or(false),
             skip_stdout: v["skip_stdout"].as_str().map(String::from),
+            root_spelling: v["root_spelling"].as_u64().unwrap_or(0) as u8,
         }
     }
 }
@@ -114,6 +121,7 @@ impl TreeSpec {
                 NodeKind::Text(t) => json!([n.path, "text", t]),
                 NodeKind::Link(t) => json!([n.path, "link", t]),
                 NodeKind::Dangling => json!([n.path, "dangling"]),
+                NodeKind::Socket => json!([n.path, "socket"]),
                 NodeKind::XdevLink => json!([n.path, "xdev"]),
             }).collect::<Vec<_>>(),
         })
@@ -129,6 +137,7 @@ impl TreeSpec {
                 "text" => NodeKind::Text(n[2].as_str().unwrap_or("").to_string()),
                 "link" => NodeKind::Link(n[2].as_str().unwrap_or("").to_string()),
                 "dangling" => NodeKind::Dangling,
+                "socket" => NodeKind::Socket,
                 _ => NodeKind::XdevLink,
             };
             nodes.push(Node { path, kind });
@@ -215,6 +224,16 @@ pub fn gen_tree(rng: &mut Rng, mode: TreeMode) -> TreeSpec {
                 }
             };
             nodes.push(Node { path: p, kind });
+        }
+        // an entry that is neither file nor directory, and a link to it
+        if rng.chance(1, 5) {
+            let parent = dirs[rng.below(dirs.len())].clone();
+            let sp = format!("{parent}/zsock");
+            nodes.push(Node { path: sp.clone(), kind: NodeKind::Socket });
+            if rng.chance(2, 3) {
+                let lp = dirs[rng.below(dirs.len())].clone();
+                nodes.push(Node { path: format!("{lp}/zlsock"), kind: NodeKind::Link(sp) });
+            }
         }
         // ignore files
         let ni = rng.below(3);
@@ -379,6 +398,7 @@ pub fn materialise(base: &Path, tree: &TreeSpec) -> XdevGuard {
         match &n.kind {
             NodeKind::Link(t) => std::os::unix::fs::symlink(base.join(t), &p).unwrap(),
             NodeKind::Dangling => std::os::unix::fs::symlink(base.join("nowhere/at/all"), &p).unwrap(),
+            NodeKind::Socket => drop(std::os::unix::net::UnixListener::bind(&p).unwrap()),
             NodeKind::XdevLink if collide && !guard.mounts.is_empty() => {
                 // A second fresh tmpfs: both instances number their inodes 2, 3, 4, ... in
                 // creation order, so some directory here has the number of the link's
@@ -594,6 +614,7 @@ pub fn count_kinds(tree: &TreeSpec) -> BTreeMap<&'static str, usize> {
             NodeKind::File(_) | NodeKind::Text(_) => "file",
             NodeKind::Link(_) => "link",
             NodeKind::Dangling => "dangling",
+            NodeKind::Socket => "socket",
             NodeKind::XdevLink => "xdev",
         };
         *m.entry(k).or_insert(0) += 1;
